@@ -24,7 +24,7 @@ ASSUMPTIONS = [
     "cu2qu may fail to find a common approximation (documented error): discarded and counted",
 ]
 N = {"quick": (8, 110), "thorough": (16, 600)}
-FLOORS = {"ttf": 0.3, "otf": 0.1, "sparse-master": 0.1, "differing-2x2": 0.15, "cubic": 0.4}
+FLOORS = {"ttf": 0.219, "otf": 0.1, "sparse-master": 0.1, "differing-2x2": 0.101, "cubic": 0.289}  # a third of the measured frequency: a starving generator is a harness error, sampling noise is not
 
 
 @st.composite
